@@ -110,6 +110,20 @@ def discharge(facts, b, blk, kind, ops, t, prefix):
         if kind == "assert:Overflow(Shl)" or kind == "assert:Overflow(Shr)":
             if vals[-1] is not None and vals[-1] < 64:
                 return "constant shift amount"
+    if kind == "assert:Overflow(Mul)" and b.kind == "Closure" and "::{closure#" in b.name:
+        # `unit * DEFAULT_BLOCK_SIZE` in the mapping closure of the per-file unit iterator: the units are bounded by the
+        # iterator's constant range (or by the take_while that ends it at the first offset past the file size)
+        from . import c06
+        parent = facts.bodies.get(b.name.rsplit("::{closure#", 1)[0])
+        it = c06.unit_iter_loop(facts, parent) if parent is not None else None
+        D = facts.const_val("config::DEFAULT_BLOCK_SIZE")
+        ks = [fmtfeat.const_eval(expr(b, o)) for o in t["msg_ops"]]
+        items = [strip_refs(expr(b, o)) for o in t["msg_ops"]]
+        if it is not None and D in ks and any(x[0] == "v" and x[1] == 2 for x in items if isinstance(x, tuple)):
+            rl = borrowed_local(parent, it[0].node["args"][0])
+            rty = parent.local_ty(rl) if rl is not None else ""
+            if "closure@%s:%d:" % (b.relfile, b.line) in rty:
+                return "unit index of the bounded per-file unit iterator times the unit size"
     if kind == "assert:BoundsCheck" and len(t["msg_ops"]) == 2:
         ln, ix = (fmtfeat.const_eval(expr(b, o)) for o in t["msg_ops"])
         if ln is None:
@@ -173,6 +187,17 @@ def discharge(facts, b, blk, kind, ops, t, prefix):
         if idx[0] == "agg" and idx[1] in ("RangeTo", "RangeFrom", "Range", "RangeToInclusive"):
             ends = [v for k_, v in (idx[3] or {}).items()] if isinstance(idx[3], dict) else []
         if ends and idx[1] in ("RangeTo", "RangeFrom"):
+            # `base[..min(x, base.len())]`: the bound is clamped to the length of the very collection in the expression itself
+            def _clamped(e_):
+                e_ = strip_refs(e_)
+                if isinstance(e_, tuple) and e_[0] == "call" and str(e_[1]).endswith("::min") and len(e_[2]) == 2:
+                    for y in e_[2]:
+                        y = strip_refs(y)
+                        if isinstance(y, tuple) and y[0] == "len" and show(strip_refs(y[1]), 6) == show(base, 6):
+                            return True
+                return False
+            if all(_clamped(e_) for e_ in ends):
+                return "the range bound is min(_, len()) of the same collection"
             ok_all = True
             for e_ in ends:
                 e_ = strip_refs(e_)
